@@ -203,6 +203,8 @@ def run(chk):
     c01.rule_r6(chk, rid="C08-R5")
     from .. import variants
     variants.apply(chk, "C08-R6", [("irispie.fords.kalmans", "kalman_filter")])
+    from .. import gens
+    gens.apply(chk, "C08-R7", {"fords"}, 3, "per-period or per-variant work fed from an exhausted iterator is silently skipped")
     chk.assumptions = [
         "that smoothed means reproduce data and equations is numerical: NOT decided",
         "Solution.Ua/Ta/Pa/Ka/Za form one consistent triangular representation (C01)",
